@@ -138,7 +138,8 @@ Proof.
   destruct (set_len_anis O (3 + b2n temporal) ls anis true) as [[l a]|] eqn:E; [|discriminate].
   intros H. inversion H; subst; clear H. cbn [g_dim g_latlon g_temporal g_anis g_angles].
   assert (Hb : b2n temporal <= 1) by (destruct temporal; simpl; lia).
-  pose proof (set_len_anis_length _ _ _ _ _ _ ltac:(lia) E) as Hl.
+  assert (H1 : 1 <= 3 + b2n temporal) by lia.
+  pose proof (set_len_anis_length _ _ _ _ _ _ H1 E) as Hl.
   unfold field_dim, spatial_dim. cbn [g_dim g_latlon g_temporal].
   repeat split; auto; try lia.
   - unfold set_len_anis in E. destruct (forallb _ _); [|discriminate]. inversion E; subst.
@@ -172,7 +173,7 @@ Local Notation RO := (Rops_with ora).
 Lemma aget_mapseq (f : nat -> R) n i : (i < n)%nat -> aget 0 (map f (seq 0 n)) i = f i.
 Proof. intros. now apply (aget_map_seq 0). Qed.
 
-Lemma ent_mk n f i j : (i < n)%nat -> (j < n)%nat -> ent RO (mk RO n f) i j = f i j.
+Lemma ent_mk n f i j : (i < n)%nat -> (j < n)%nat -> ent RO (mk n f) i j = f i j.
 Proof.
   intros Hi Hj. unfold ent, mk, aget2, arow, aget.
   rewrite nth_indep with (d' := map (fun j => f 0%nat j) (seq 0 n)) by (now rewrite map_length, seq_length).
@@ -263,23 +264,27 @@ Qed.
 (* the angles a temporal model stores *)
 Definition temporal_angles (dim : nat) (angles : list R) := set_model_angles RO dim angles false true.
 
+Lemma temporal_angles_zero dim angles k : (no_of_angles (dim - 1) <= k)%nat ->
+  aget 0 (temporal_angles dim angles) k = 0.
+Proof. intros H. exact (set_model_angles_temporal_zero RO dim angles k H). Qed.
+
 Lemma factor_tblock dim angles (sgn : R -> R) k pl : (2 <= dim)%nat -> sgn 0 = 0 ->
   In (k, pl) (combine (seq 0 (no_of_angles dim)) (rotation_planes dim)) ->
   tblock dim (givens_rotation RO dim pl (alt_sign RO k (sgn (aget 0 (temporal_angles dim angles) k)))).
 Proof.
   intros Hd Hs Hin. destruct dim as [|[|m]]; try lia.
-  assert (Hnth : exists i, (i < no_of_angles (S (S m)))%nat /\ k = i /\ pl = nth i (rotation_planes (S (S m))) (0%nat, 0%nat)).
+  assert (Hnth : (k < no_of_angles (S (S m)))%nat /\ pl = nth k (rotation_planes (S (S m))) (0%nat, 0%nat)).
   { apply (In_nth _ _ (0%nat, (0%nat, 0%nat))) in Hin. destruct Hin as (i & Hi & E).
     rewrite combine_length, seq_length, rotation_planes_length, Nat.min_id in Hi.
     rewrite combine_nth in E by (now rewrite seq_length, rotation_planes_length).
-    rewrite seq_nth in E by auto. inversion E; subst. exists i; auto. }
-  destruct Hnth as (i & Hi & -> & ->).
+    rewrite seq_nth in E by auto. inversion E; subst. auto. }
+  destruct Hnth as (Hi & Epl). subst pl. set (i := k) in *.
   pose proof (time_planes m i Hi) as Hp. cbv zeta in Hp.
   destruct (nth i (rotation_planes (S (S m))) (0%nat, 0%nat)) as [p q]. cbn [fst snd] in Hp.
   destruct (Nat.ltb_spec i (no_of_angles (S m))) as [Hlt|Hge].
   - apply tblock_givens_spatial; lia.
-  - unfold temporal_angles. rewrite set_model_angles_temporal_zero by (replace (S (S m) - 1)%nat with (S m) by lia; auto).
-    cbn [n0 Rops_with]. rewrite Hs, alt_sign_zero.
+  - rewrite temporal_angles_zero by (replace (S (S m) - 1)%nat with (S m) by lia; auto).
+    rewrite Hs, alt_sign_zero.
     apply tblock_givens_zero; [lia|]. rewrite (no_of_angles_S (S m)) in Hi. lia.
 Qed.
 
@@ -318,8 +323,9 @@ Qed.
 Lemma sumn_delta n (c : R) g i : (i < n)%nat ->
   sumn RO n (fun k => (if Nat.eqb i k then c else 0) * g k) = c * g i.
 Proof.
-  intros Hi. rewrite (sumn_single n _ i) by (auto; intros k Hk Hne; destruct (Nat.eqb_spec i k); [lia|ring]).
-  now rewrite Nat.eqb_refl.
+  intros Hi. rewrite (sumn_single n _ i); auto.
+  - now rewrite Nat.eqb_refl.
+  - intros k Hk Hne. destruct (Nat.eqb_spec i k); [lia|ring].
 Qed.
 
 Lemma ent_diag_mmul n d D i j : (i < n)%nat -> (j < n)%nat ->
@@ -327,8 +333,16 @@ Lemma ent_diag_mmul n d D i j : (i < n)%nat -> (j < n)%nat ->
 Proof.
   intros Hi Hj. unfold mmul. rewrite ent_mk by auto. cbn [nmul Rops_with].
   rewrite (sumn_ext n _ (fun k => (if Nat.eqb i k then aget 0 d i else 0) * ent RO D k j)).
-  - apply sumn_delta; auto.
+  - exact (sumn_delta n (aget 0 d i) (fun k => ent RO D k j) i Hi).
   - intros k Hk. unfold diag. rewrite ent_mk by auto. reflexivity.
+Qed.
+
+Lemma nth_last_R (l : list R) d : nth (length l - 1) l d = last l d.
+Proof.
+  induction l as [|a l IH]; [reflexivity|]. destruct l as [|b l]; [reflexivity|].
+  replace (length (a :: b :: l) - 1)%nat with (S (length (b :: l) - 1)) by (simpl; lia).
+  change (nth (S (length (b :: l) - 1)) (a :: b :: l) d) with (nth (length (b :: l) - 1) (b :: l) d).
+  rewrite IH. reflexivity.
 Qed.
 
 (* C13_time_axis: the isometrizing matrix of a temporal model (dim >= 2, dim - 1 ratios) maps the time
@@ -350,9 +364,7 @@ Proof.
   { destruct dim as [|[|m]]; try lia. replace (S (S m) - 1)%nat with (S m) in * by lia.
     unfold aget. cbn [nth]. rewrite nth_indep with (d' := 1 / 0) by (rewrite map_length; lia).
     rewrite (map_nth (fun a => 1 / a)). f_equal.
-    rewrite <- (Nat.sub_0_r m) at 1. replace m with (length anis - 1)%nat by lia.
-    clear. induction anis as [|a [|b l] IH]; try reflexivity.
-    change (length (a :: b :: l) - 1)%nat with (S (length (b :: l) - 1)). cbn [nth]. rewrite IH. reflexivity. }
+    replace m with (length anis - 1)%nat by lia. apply nth_last_R. }
   assert (E1 : forall i, (i < dim - 1)%nat ->
      ent RO (mmul RO dim (diag RO dim (n1 RO :: map (fun a => ndiv RO (n1 RO) a) anis))
         (matrix_derotate RO dim (temporal_angles dim angles))) i (dim - 1) = 0 /\
@@ -425,7 +437,8 @@ Proof.
   intros HQ Hu Huv. unfold dist. f_equal. unfold rot.
   destruct (firstn3_skipn u Hu) as (a & b & c & Eu & Eu'). destruct (firstn3_skipn v ltac:(lia)) as (a' & b' & c' & Ev & Ev').
   rewrite Eu, Ev. rewrite sqdist_app by (unfold matvec; now rewrite !map_length).
-  rewrite rot3_sqdist by auto. rewrite Eu' at 3. rewrite Ev' at 3. now rewrite sqdist_app by reflexivity.
+  rewrite rot3_sqdist by auto.
+  transitivity (sqdist RO ([a; b; c] ++ skipn 3 u) ([a'; b'; c'] ++ skipn 3 v)); [now rewrite sqdist_app | now rewrite <- Eu', <- Ev'].
 Qed.
 
 (* a rotation keeps points on their sphere *)
@@ -537,6 +550,27 @@ Proof.
   destruct (krige_rotation_invariant cf cfr unbiased cond_err Q HQ (3 + b2n (g_temporal m))
               (map (isometrize RO m) cond) (map (isometrize RO m) tgt) ltac:(lia) (L cond) (L tgt)) as [E1 E2].
   now rewrite E1, E2.
+Qed.
+
+(* ---------- non-vacuity of the hypotheses *)
+Example orth3_rotz a : orth3 [[cos a; - sin a; 0]; [sin a; cos a; 0]; [0; 0; 1]].
+Proof.
+  intros i j Hi Hj. pose proof (cs1 a) as H.
+  destruct i as [|[|[|i]]]; try lia; destruct j as [|[|[|j]]]; try lia;
+    unfold ent, aget2, arow, aget; cbn [nth Nat.eqb]; nra.
+Qed.
+
+Example construct_example :
+  exists m, construct RO 2 None true true 6371 [1000] [1; 1; / 2] [] = Some m /\
+            g_temporal m = true /\ 0 < g_geo_scale m /\ last (g_anis m) 0 <> 0.
+Proof.
+  unfold construct. cbn [b2n Nat.add Nat.ltb Nat.leb].
+  unfold set_len_anis. cbn [firstn length Nat.eqb set_anis Nat.sub repeat app forallb nltb n0 Rops_with].
+  assert (H1 : Rltb 0 1 = true) by (apply Rltb_true; lra).
+  assert (H2 : Rltb 0 (/ 2) = true) by (apply Rltb_true; lra).
+  rewrite H1, H2. cbn [andb]. eexists. split; [reflexivity|].
+  cbn [g_temporal g_geo_scale g_anis nabs Rops_with seq map Nat.ltb Nat.leb aget nth last n1].
+  rewrite Rabs_right by lra. repeat split; lra.
 Qed.
 
 End RealPart.
